@@ -426,7 +426,11 @@ def names(draw: Any) -> str:
     """Names that moptipy's sanitize_name leaves unchanged."""
     parts = draw(st.lists(st.text(alphabet=_ALNUM, min_size=1, max_size=6),
                           min_size=1, max_size=3))
-    return "_".join(parts)
+    name = "_".join(parts)
+    # names that look like file names / keywords of the formats they end up in
+    tail = draw(st.sampled_from(["", "", "", "", "tsp", "atsp", "_tsp", "xml",
+                                 "eof", "EOF", "name", "txt", "csv"]))
+    return name + tail
 
 
 @st.composite
